@@ -374,6 +374,7 @@ func defaultResp(tag string) c02Resp {
 }
 
 func runC02(c *fw.Ctx) {
+	runSpxFamily(c, "C02")
 	thorough := c.Tier == "thorough"
 	var item int64
 	sampled := 0
